@@ -256,6 +256,14 @@ def infeasible_items(tier):
         add(f"macro {nm} in string", text=defs + base.replace('"a"', '"a ' + call + '"', 1))
         add(f"macro {nm} in comment", text=defs + base.replace("effort 90min", "effort 90min # " + call, 1))
         add(f"macro {nm} defined after use", text=base.replace("effort 90min", "effort 90min " + call, 1) + defs)
+    # a task waiting for a container whose children are all placed by the milestone pre-pass (dated milestones), alone and with company
+    for alap in (False, True):
+        for extra in (False, True):
+            for nest in (False, True):
+                ms = [{"id": "m1", "milestone": True, "start": "2025-01-07"}, {"id": "m2", "milestone": True, "start": "2025-01-08"}]
+                g = {"id": "g", "children": ms if not nest else [{"id": "h", "children": ms}]}
+                tasks = [g, T("t", deps=["g"])] + ([T("o")] if extra else [])
+                add(f"container of dated milestones alap={alap} extra={extra} nest={nest}", {"alap": alap, "resources": R, "tasks": tasks})
     # project durations in every unit and with decimals; dates given by (known and unknown) macro references
     for dur in ("36h", "90min", "1.5w", "0.5m", "2.5d", "1y", "1.5y", "0d"):
         add(f"project duration +{dur}", {"dur": dur, "resources": R, "tasks": [T("a"), T("b", deps=["a"])]})
@@ -356,8 +364,12 @@ def no_cause(spec, obs):
     rids = {r["id"] for r in spec.get("resources", [])}
     for fid in deps.order:
         t = deps.node[fid]
-        if t.get("start") or t.get("end") or t.get("limits"):
+        if t.get("limits") or t.get("end"):
             return v
+        if t.get("start"):
+            # a dated MILESTONE inside the first week of a forward project is harmless (nothing can fail to fit); other pins are not judged
+            if not (t.get("milestone") and not spec.get("alap") and "2025-01-06" <= str(t["start"])[:10] <= "2025-01-10"):
+                return v
         if deps.is_leaf(fid) and not t.get("milestone"):
             e = t.get("effort")
             if not isinstance(e, int) or e > 600 or e < 1 or not t.get("alloc") or any(a not in rids for a in t["alloc"]) or t.get("alt"):
